@@ -101,6 +101,7 @@ def vec_plan(Query, pid, tier):
             q += vec_queries(Query, NONINPUT_OPS, [sv2B, vec_cfg(0, 0, 'B', s='uint32_t'), vec_cfg(2, 3, 'R')])
             q += vec_queries(Query, INPUT_OPS, [input_cfg(vec_cfg(1, 2, 'B', cls=0)), input_cfg(vec_cfg(1, 2, 'B', cls=1, cmax=3))])
             q += vec_queries(Query, TRAIT_OPS, [vec_cfg(1, 2, 'X', ak=2, cls=0), vec_cfg(1, 2, 'X', ak=2, cls=1)])
+            q += vec_queries(Query, ALIAS_OPS, [sv2B])      # self-referential arguments are ordinary histories too (see C10 for the full matrix)
         elif pid == 'C02':
             q += vec_queries(Query, MUTATING, [vec_cfg(1, 2, 'X', ak=2, cls=0), vec_cfg(1, 2, 'X', ak=2, cls=1), vec_cfg(1, 3, 'R', ak=0)])
             q += vec_queries(Query, TRAIT_OPS, [vec_cfg(2, 3, 'X'), vec_cfg(0, 0, 'X', ak=1, s='uint32_t', cls=0), vec_cfg(0, 0, 'X', ak=1, s='uint32_t', cls=1)])
@@ -201,14 +202,14 @@ def smallset_plan(Query, pid, tier):
         return out
     flat = [ss_cfg(2, 0, 0, 0), ss_cfg(2, 0, 0, 1)]
     if not quick: flat += [ss_cfg(3, 0, 1, 0), ss_cfg(3, 0, 1, 1), ss_cfg(1, 0, 0, 0), ss_cfg(1, 0, 0, 1)]
-    simple = ['lookup', 'erase_key', 'erase_it', 'erase_loop', 'clear'] + (['copy_move'] if pid == 'C04' else [])
+    simple = ['lookup', 'erase_key', 'erase_it', 'erase_range', 'erase_loop', 'clear'] + (['copy_move'] if pid == 'C04' else [])
     q = ss_queries(Query, simple, flat)
     # insert: the inline -> large crossing runs FlatSet's bulk insert: 270-290 s and 11-14 GB per overload on the pinned tree
     q += ss_queries(Query, ['insert'], forms(flat[:2], (0, 2) if quick else (0, 1, 2, 3)) + ([] if quick else forms(flat[2:], (0,))), timeout=1200, mem_gb=14)
     if pid == 'C04':
         q += ss_queries(Query, ['node'], forms(flat[:1], (0,)) if quick else forms(flat[:2], (0, 1, 2, 3)), timeout=1200, mem_gb=8)
         q += ss_queries(Query, ['swap'], [ss_cfg(2, 0, 0, a, b) for a in (0, 1) for b in (0, 1)])
-        q += ss_queries(Query, ['compare'], [ss_cfg(2, 0, 0, 0, 0)] + ([] if quick else [ss_cfg(2, 0, 0, 1, 1), ss_cfg(2, 0, 0, 1, 0)]), timeout=1200, mem_gb=6)
+        q += ss_queries(Query, ['compare'], [ss_cfg(2, 0, 0, 0, 0), ss_cfg(2, 0, 0, 0, 1), ss_cfg(2, 0, 0, 1, 0)] + ([] if quick else [ss_cfg(2, 0, 0, 1, 1)]), timeout=1200, mem_gb=6)
     return q
 
 def flatset_plan(Query, pid, tier):
